@@ -5,7 +5,7 @@ from faultcommon import *
 def main(tier, replay):
     c = Check('C09', 'fault_enumeration', tier)
     quick = tier == 'quick'
-    P = {k: v for k, v in c01.core_programs().items() if k in ('flat24', 'p4', 'p2', 'emb1', 'document')}
+    P = {k: v for k, v in c01.core_programs().items() if k in ('flat24', 'p4', 'p2', 'emb1', 'document', 'flat_int64')}
     mod, infos = setup_programs(c, P, TEMPLATES)
     if replay:
         replay_main(c, replay, infos, NATIVE)
@@ -17,6 +17,8 @@ def main(tier, replay):
             j['expect'] = expect
         jobs.append(j)
     for n in P:
+        if n == 'flat_int64':
+            continue
         for cd in (0, 1, 2):
             for ps in (1, 2):
                 if quick and n not in ('flat24', 'p4') and (cd + ps) % 2:
@@ -25,6 +27,10 @@ def main(tier, replay):
                 J('fault-%s-c%d-ps%d' % (n, cd, ps), n, [2, 2, 1, 1, cd, ps, 0])
         if not quick:
             J('fault-%s-3x3-ps2' % n, n, [3, 3, 2, 1, 1, 2, 0])
+    # one page whose body exceeds 64 KiB (8200 int64 values): writers that split large bodies into several sink calls
+    for cd in ((0,) if quick else (0, 1)):
+        J('fault-bigpage-flat_int64-c%d' % cd, 'flat_int64', [1, 8200, 1, 1, cd, 10000, 2])
+        jobs[-1]['opt'].update(max_alloc=400000, max_steps=600000000)
     J('sens-swallow', 'p4', [1, 1, 1, 1, 0, 1, 1], expect='Write reports')
     run_program_jobs(c, mod, infos, jobs, native_templates=NATIVE)
     c.programs = len(P)
@@ -32,7 +38,7 @@ def main(tier, replay):
     c.extra['distinct_nontrivial_override'] = sum(jr.get('distinct_notes', 0) for j, jr, x in c.jobs if not j.get('expect'))
     ncalls = [jr['paths'] for j, jr, x in c.jobs]
     c.bounds = {'fault index k': 'symbolic int64 >= 1: one path per sink call of the workload plus the fault-free one (exhaustive over k)', 'partial count on failure': '0 or len(p)/2',
-                'workloads': '2 batches x 2 records (3x3 thorough) of fixed structure, page size 1 and 2, each codec, programs %s' % sorted(P), 'paths per workload': [min(ncalls or [0]), max(ncalls or [0])],
+                'workloads': '2 batches x 2 records (3x3 thorough) of fixed structure, page size 1 and 2, each codec, programs %s; one page of 8200 concrete records (int64 column body of 65600 bytes > 64 KiB)' % sorted(P), 'paths per workload': [min(ncalls or [0]), max(ncalls or [0])],
                 'outside': 'sinks that return n < len(p) with a nil error (io.Writer contract violation); failures inside thrift/snappy/gzip themselves'}
     c.assumptions = [STUB_ASSUMPTIONS[k] for k in ('A1', 'A3', 'A4', 'A5', 'A6', 'A7')]
     c.finish('paths = value of the symbolic fault index k relative to the number of sink calls (each comparison calls == k forks) x partial-write choice; distinct_nontrivial = number of distinct (workload, failing call index) pairs actually exercised, counted from the per-path notes; evaluations = paths',
